@@ -5,6 +5,7 @@ package opgen
 import (
 	"encoding/json"
 	"fmt"
+	"slices"
 	"sort"
 	"strconv"
 	"strings"
@@ -56,6 +57,7 @@ type Options struct {
 	AltVars       int  // number of alternative variable assignments to draw (Op.Alt)
 	OwnFieldAlias bool // allow aliases drawn from the enclosing type's own field names (known finding C01-alias-collides-with-planner-field)
 	NoShortVars   bool // never name client variables a, b, c, … (the names variable extraction and canonicalisation generate)
+	NoMirrored    bool // never select the same composite key in fragments on different object types of one level
 }
 
 type gen struct {
@@ -102,7 +104,7 @@ func Gen(t *rapid.T, s *ast.Schema, o Options) Op {
 		g.feat["mutation"] = true
 	}
 	if !o.NoShortVars && !o.NoVariables && rapid.IntRange(0, 3).Draw(t, "shortvars") == 0 {
-		g.shortNames = rapid.Permutation([]string{"a", "b", "c", "d", "e", "f"}).Draw(t, "shortnames")
+		g.shortNames = rapid.Permutation([]string{"a", "b", "c", "d"}).Draw(t, "shortnames")
 	}
 	body := g.selSet(root, 0, "r")
 	name := ""
@@ -358,14 +360,14 @@ func (g *gen) selSetX(def *ast.Definition, depth int, label string, inAbstractFr
 // level tracks one response-object level (a field's selection set including all fragments
 // spread into it): which composite response keys were already selected there.
 type level struct {
-	keys      map[string]bool // Simple mode: response keys used at this level
-	composite map[string]bool
+	keys      map[string]bool     // Simple mode: response keys used at this level
+	composite map[string][]string // composite response key → type contexts it was selected in (object type name, "*" for an abstract context)
 	rootKind  ast.DefinitionKind
 }
 
 func (g *gen) selSetL(def *ast.Definition, depth int, label string, inAbstractFragment bool, lv *level) string {
 	if lv == nil {
-		lv = &level{composite: map[string]bool{}, keys: map[string]bool{}, rootKind: def.Kind}
+		lv = &level{composite: map[string][]string{}, keys: map[string]bool{}, rootKind: def.Kind}
 	}
 	var parts []string
 	n := rapid.IntRange(1, 4).Draw(g.t, label+"n")
@@ -427,6 +429,13 @@ func (g *gen) selSetL(def *ast.Definition, depth int, label string, inAbstractFr
 				g.feat["inline-fragment"] = true
 			}
 		default:
+			if abstract && !inAbstractFragment && !g.o.Simple && !g.o.UniqueKeys && !g.o.Defer && !g.o.NoMirrored && depth+1 < g.o.MaxDepth && g.budget >= 3 &&
+				rapid.IntRange(0, 3).Draw(g.t, label+"mir") == 0 {
+				if m, ok := g.mirrored(def, depth, label, lv); ok {
+					parts = append(parts, m)
+					continue
+				}
+			}
 			if len(fields) == 0 || g.budget <= 0 {
 				if def != g.s.Mutation {
 					parts = append(parts, "__typename")
@@ -453,10 +462,19 @@ func (g *gen) selSetL(def *ast.Definition, depth int, label string, inAbstractFr
 			if composite && alias == "" {
 				// a composite response key is selected at most once per response-object level
 				// (across all fragments spread into it)
-				if lv.composite[f.Name] && !g.allow("composite-key-in-multiple-fragments") {
-					continue
+				// (across all fragments spread into it), except in fragments on different object
+				// types of an abstract level, which can never apply to the same object
+				ctxName := "*"
+				if def.Kind == ast.Object && lv.rootKind != ast.Object {
+					ctxName = def.Name
 				}
-				lv.composite[f.Name] = true
+				if prev := lv.composite[f.Name]; len(prev) > 0 && !g.allow("composite-key-in-multiple-fragments") {
+					if ctxName == "*" || slices.Contains(prev, "*") || slices.Contains(prev, ctxName) || g.o.NoMirrored {
+						continue
+					}
+					g.feat["composite-key-in-disjoint-fragments"] = true
+				}
+				lv.composite[f.Name] = append(lv.composite[f.Name], ctxName)
 			}
 			g.budget--
 			s := f.Name
@@ -515,6 +533,55 @@ func (g *gen) selSetL(def *ast.Definition, depth int, label string, inAbstractFr
 		}
 	}
 	return "{ " + strings.Join(parts, " ") + " }"
+}
+
+// mirrored renders the same composite field with the same sub-selection inside fragments on
+// two different object types of an abstract level: '... on A { f {…} } ... on B { f {…} }'.
+// The two occurrences can never apply to the same object; below them the planner has equal
+// fetches that differ only in the type condition of an enclosing path element.
+func (g *gen) mirrored(def *ast.Definition, depth int, label string, lv *level) (string, bool) {
+	var objs []*ast.Definition
+	for _, o := range g.s.GetPossibleTypes(def) {
+		if o.Kind == ast.Object {
+			objs = append(objs, o)
+		}
+	}
+	if len(objs) < 2 {
+		return "", false
+	}
+	sort.Slice(objs, func(i, j int) bool { return objs[i].Name < objs[j].Name })
+	i := rapid.IntRange(0, len(objs)-1).Draw(g.t, label+"ma")
+	j := rapid.IntRange(0, len(objs)-2).Draw(g.t, label+"mb")
+	if j >= i {
+		j++
+	}
+	a, b := objs[i], objs[j]
+	inB := map[string]*ast.FieldDefinition{}
+	for _, f := range g.selectable(b) {
+		inB[f.Name] = f
+	}
+	var common []*ast.FieldDefinition
+	for _, fa := range g.selectable(a) {
+		fb := inB[fa.Name]
+		ft := g.s.Types[fa.Type.Name()]
+		if fb == nil || ft == nil || fb.Type.String() != fa.Type.String() || len(fa.Arguments) > 0 || len(fb.Arguments) > 0 || len(lv.composite[fa.Name]) > 0 {
+			continue
+		}
+		if ft.Kind == ast.Object || ft.Kind == ast.Interface || ft.Kind == ast.Union {
+			common = append(common, fa)
+		}
+	}
+	if len(common) == 0 {
+		return "", false
+	}
+	f := common[rapid.IntRange(0, len(common)-1).Draw(g.t, label+"mf")]
+	g.budget -= 2
+	g.underRefinement++
+	sub := g.selSet(g.s.Types[f.Type.Name()], depth+2, label+"ms")
+	g.underRefinement--
+	lv.composite[f.Name] = append(lv.composite[f.Name], a.Name, b.Name)
+	g.feat["mirrored-fragments"] = true
+	return fmt.Sprintf("... on %s { %s %s } ... on %s { %s %s }", a.Name, f.Name, sub, b.Name, f.Name, sub), true
 }
 
 // args renders an argument list for field f: each argument literal, variable or omitted.
